@@ -1238,7 +1238,7 @@ theorem elab_ksFrom (env : Env) (kbs : List KeyBlobDef) (hev : ∀ e, eval env.v
 
 
 theorem crypto_ok {kbs : List KeyBlobDef} {i st en : Int} {key ctr : String} (kind : String) (d : Dict) (addr : Int) (input : String)
-    (hd : d.get? "keyblob_id" = some (.i i))
+    (hd : d.get? "keyblob_id" = some (.i i)) (haddr : Spec.isAddr addr = true)
     (h : Spec.keyblobOf kbs i = some (st, en, key, ctr)) :
     cryptoCmd kind kbs d addr input = .ok (.loadCrypto kind addr st en key ctr input) := by
   unfold Spec.keyblobOf at h
@@ -1251,7 +1251,8 @@ theorem crypto_ok {kbs : List KeyBlobDef} {i st en : Int} {key ctr : String} (ki
         simp at h
         obtain ⟨rfl, rfl, rfl, rfl⟩ := h
         simp only [Bool.and_eq_true] at hhex
-        simp [cryptoCmd, hd, lookupKeyblob, hk, hs, he, hkey, hctr, bind, Except.bind, pure, Except.pure, valueToInt, strOf, hhex.1, hhex.2]
+        simp [cryptoCmd, hd, lookupKeyblob, hk, hs, he, hkey, hctr, bind, Except.bind, pure, Except.pure, valueToInt, strOf, hhex.1, hhex.2,
+          checkAddr_ok haddr]
       · simp at h
     · simp at h
   · simp at h
@@ -1262,10 +1263,13 @@ theorem elab_keywrap (env : Env) (kbs : List KeyBlobDef) (hev : ∀ e, eval env.
     elabStmt env kbs (.keywrap id blob addr) = .ok c := by
   simp only [Spec.cmdOf, Option.bind_eq_bind, Option.bind_eq_some_iff] at h
   obtain ⟨i, hi, a, ha, ⟨st, en, key, ctr⟩, hkb, hc⟩ := h
-  simp at hc; subst hc
-  simp [elabStmt, stmtDict, intOf_evalE hev hi, intOf_evalE hev ha, bind, Except.bind, pure, Except.pure, cmdOfDict, Dict.get?,
-    valueToInt, strOf, DVal.ofVal]
-  exact crypto_ok "keywrap" _ a blob (by simp [Dict.get?]) hkb
+  split at hc
+  · next haddr =>
+    simp at hc; subst hc
+    simp [elabStmt, stmtDict, intOf_evalE hev hi, intOf_evalE hev ha, bind, Except.bind, pure, Except.pure, cmdOfDict, Dict.get?,
+      valueToInt, strOf, DVal.ofVal]
+    exact crypto_ok "keywrap" _ a blob (by simp [Dict.get?]) haddr hkb
+  · simp at hc
 
 
 theorem fileOf_ok {env : Env} {d : LoadData} {bs : List UInt8} (h : Spec.fileOf env d = some bs) :
@@ -1302,18 +1306,20 @@ theorem elab_encrypt (env : Env) (kbs : List KeyBlobDef) (hev : ∀ e, eval env.
   | addr ea =>
     simp only [Spec.cmdOf, Option.bind_eq_bind, Option.bind_eq_some_iff] at h
     obtain ⟨i, hi, m, hm, a, ha, bs, hbs, ⟨st, en, key, ctr⟩, hkb, hc⟩ := h
-    simp at hc; subst hc
+    by_cases haddr : Spec.isAddr a = true
+    case neg => simp [haddr] at hc
+    simp [haddr] at hc; subst hc
     obtain ⟨p, q, hdd, hp, hq, rfl⟩ := fileOf_ok hbs
     rcases memOpt_cases hev "load_opt" hm with ⟨hd, rfl⟩ | ⟨v, hd, hv⟩
     · simp [elabStmt, stmtDict, loadStmtDict, intOf_evalE hev hi, hd, hdd, targetDict_addr hev ha, bind, Except.bind, pure, Except.pure,
         cmdOfDict, Dict.get?, Dict.update, valueToInt, DVal.ofVal, hp, hq]
       simp only [Spec.hexOfBytes, List.append_assoc]
-      apply crypto_ok _ _ _ _ _ hkb
+      apply crypto_ok _ _ _ _ _ haddr hkb
       simp [Dict.get?]
     · simp [elabStmt, stmtDict, loadStmtDict, intOf_evalE hev hi, hd, hdd, targetDict_addr hev ha, bind, Except.bind, pure, Except.pure,
         cmdOfDict, Dict.get?, Dict.update, valueToInt, DVal.ofVal, hp, hq]
       simp only [Spec.hexOfBytes, List.append_assoc]
-      apply crypto_ok _ _ _ _ _ hkb
+      apply crypto_ok _ _ _ _ _ haddr hkb
       simp [Dict.get?]
 
 
